@@ -8,7 +8,7 @@ from wire import Obj
 PROP = "C19"
 MODULES = ["JV.Props.C19"]
 HARNESS = "af"
-FLAGS = ["-std=c++17", "-O1", "-g", "-I/repo/include", "-I/verif/harness"]          # no sanitizer: the harness replaces operator new/delete itself
+FLAGS = ["-std=c++17", "-O1", "-g", "-I" + vlib.REPO + "/include", "-I" + vlib.ROOT + "/harness"]          # no sanitizer: the harness replaces operator new/delete itself
 
 LONG = b"a string long enough to live on the heap, not in the small buffer"
 
@@ -56,6 +56,21 @@ def lines(rng, scale):
         out.append("af mergepatch | %s | %s" % (w, other))
         out.append("af jsonpath | %s | s%s" % (w, rng.choice([b"$..*", b"$.a[*]", b"$..[?(@.a)]", b"$[0,1,'a']", b"$..a"]).hex()))
         out.append("af jmespath | %s | s%s" % (w, rng.choice([b"*", b"a[*]", b"sort_by(@, &a)", b"[a, b, {x: c}]", b"a || b | [0]", b"keys(@)", b"map(&a, @)"]).hex()))
+    # assignment between values of the same storage kind, every kind (the same-kind branches of copy_assignment replace contents in place)
+    kinds = [LONG, LONG + b"!!", ("b", LONG), ("b", b"other bytes, also long enough for the heap"), wire.Tagged("bigint", b"123456789012345678901234567890"),
+             [LONG, ("b", LONG)], [("b", b"\x01" * 40), LONG + b"?"], Obj([(b"a", LONG)]), Obj([(b"a", ("b", LONG)), (b"b", 1)]), 1, None]
+    for x in kinds:
+        for y in kinds:
+            out.append("af assign | %s | %s" % (wire.render(x), wire.render(y)))
+    # filter expressions whose evaluation moves heap-backed temporaries around (function arguments and results, regex, nested paths)
+    books = Obj([(b"books", [Obj([(b"price", 9 + i), (b"title", b"The Lord of the Rings, volume %d of many" % i), (b"tags", [b"fantasy", LONG])]) for i in range(3)])])
+    for q in [b"$.books[?(contains(@.title, 'Lord') && @.price < 15)]", b"$.books[?(tokenize(@.title, ' ')[0] == 'The')]", b"$.books[?(length(@.title) > 5)].title",
+              b"$.books[?(@.title =~ /The.*/)]", b"$.books[?(starts_with(@.title, 'The Lord') || ends_with(@.title, 'many'))]", b"$.books[?(@.tags[1] == @.tags[1])]",
+              b"$.books[?(max(@.price, 3) > 2)]", b"$..[?(@.price)]['title','price']", b"$.books[?(keys(@)[0] == 'price')]"]:
+        out.append("af jsonpath | %s | s%s" % (wire.render(books), q.hex()))
+    for q in [b"books[?contains(title, 'Lord') && price < `15`].title", b"join(', ', books[*].title)", b"books[*].merge(@, {x: title})", b"sort_by(books, &title)[*].to_string(@)",
+              b"books[?starts_with(title, 'The')] | [0].tags[1]", b"map(&to_array(title), books)", b"max_by(books, &price).title", b"not_null(missing, books[0].title)"]:
+        out.append("af jmespath | %s | s%s" % (wire.render(books), q.hex()))
     docs = [Obj([(b"a", [1, 2]), (b"b", Obj([(b"c", 1)]))]), [1, [2, 3], Obj([(b"k", LONG)])]]
     patches = [
         [Obj([(b"op", b"add"), (b"path", b"/a/0"), (b"value", [9, LONG])]), Obj([(b"op", b"remove"), (b"path", b"/b")]), Obj([(b"op", b"replace"), (b"path", b"/a/1"), (b"value", Obj([(b"x", 1)]))])],
